@@ -187,7 +187,7 @@ S = Tyvar("S")
 
 
 def lca_type(dtypes: list[Dtype]) -> Dtype:
-    dtypes = [without_const(dtype) for dtype in dtypes if not isinstance(dtype, NullType)]
+    dtypes = [dtype for dtype in map(without_const, dtypes) if not isinstance(dtype, NullType)]
     if len(dtypes) == 0:
         return NullType()
 
